@@ -228,31 +228,12 @@ theorem compareDatetime_refl (env : Env) (useTZ : Bool) (a : DateTime) :
   have h2 : ∀ t : GoTime, timeTZCompare t t = 0 := fun t => (timeTZCompare_eq_zero_iff t t).2 ⟨rfl, rfl, rfl⟩
   cases a with | mk ka sa na oa => cases ka <;> simp [compareDatetime, h1, h2]
 
-/-- dates, timestamps and timestamps with time zone are all compared by instant when `useTZ = true`
-    (the context zone plays no role) -/
-theorem compareDatetime_instant (env : Env) (a b : DateTime)
-    (ha : isClock a.kind = false) (hb : isClock b.kind = false) :
-    compareDatetime env true a b = .ok (a.t.compare b.t) := by
-  cases a with | mk ka sa na oa => cases b with | mk kb sb nb ob =>
-    cases ka <;> cases kb <;> simp_all [compareDatetime, isClock, GoTime.compare_utc_left, GoTime.compare_utc_right]
-
 /-- values of the same kind are compared by instant, `timetz` additionally by offset; no zone, no error -/
 theorem compareDatetime_sameKind (env : Env) (useTZ : Bool) (a b : DateTime) (h : a.kind = b.kind) :
     compareDatetime env useTZ a b =
       .ok (if a.kind = .timetz then timeTZCompare a.t b.t else a.t.compare b.t) := by
   cases a with | mk ka sa na oa => cases b with | mk kb sb nb ob =>
     simp at h; subst h; cases ka <;> simp [compareDatetime]
-
-/-- transitivity of `≤` among dates, timestamps and timestamps with time zone (`useTZ = true`) -/
-theorem compareDatetime_trans_instant (env : Env) (a b c : DateTime)
-    (ha : isClock a.kind = false) (hb : isClock b.kind = false) (hc : isClock c.kind = false)
-    (r1 r2 : Int) (h1 : compareDatetime env true a b = .ok r1) (h2 : compareDatetime env true b c = .ok r2)
-    (l1 : r1 ≤ 0) (l2 : r2 ≤ 0) : ∃ r3, compareDatetime env true a c = .ok r3 ∧ r3 ≤ 0 := by
-  rw [compareDatetime_instant env a b ha hb] at h1
-  rw [compareDatetime_instant env b c hb hc] at h2
-  rw [compareDatetime_instant env a c ha hc]
-  cases h1; cases h2
-  exact ⟨_, rfl, GoTime.compare_trans _ _ _ l1 l2⟩
 
 /-- transitivity of `≤` among values of one kind (any `useTZ`) -/
 theorem compareDatetime_trans_sameKind (env : Env) (useTZ : Bool) (a b c : DateTime)
@@ -773,59 +754,201 @@ theorem unmarshalJSON_short (kind : DTKind) (data : List UInt8) (h : data.length
 
 /-! ## C17: comparison versus comparison after an explicit cast -/
 
-/-- New York winter time as a fixed zone -/
-def envM5 : Env := ⟨Zone.fixed (-18000), 0⟩
-/-- `"2024-01-01T00:00:00".timestamp()` -/
-def tsA : DateTime := ⟨.timestamp, 1704067200, 0, 0⟩
-/-- `"2024-01-01T00:00:00-05:00".timestamp_tz()` -/
-def tstzB : DateTime := ⟨.timestamptz, 1704085200, 0, -18000⟩
-
-/-- C17 deviation: the direct comparison ignores the context zone … -/
-theorem compare_direct_ignores_zone : compareDatetime envM5 true tsA tstzB = .ok (-1) := by rfl
-
-/-- … whereas casting first and comparing then says "equal" -/
-theorem compare_after_cast_differs :
-    (castTo envM5 true .timestamptz tsA >>= fun a' => compareDatetime envM5 true a' tstzB) = .ok 0 := by
-  rfl
-
-
-/-- in a fixed zone, casting a timestamp to timestamptz shifts the instant by the zone offset -/
-theorem castTo_timestamptz_fixed (o today : Int) (a : DateTime) (wf : TimestampWF a) :
-    castTo ⟨Zone.fixed o, today⟩ true .timestamptz a = .ok ⟨.timestamptz, a.sec - o, a.nsec, o⟩ := by
+/-- closed form of `Timestamp.ToTimestampTZ(ctx)`: the instant `time.Date` resolves the wall clock to -/
+theorem timestampToTimestampTZ_eq (env : Env) (a : DateTime) (wf : TimestampWF a) :
+    timestampToTimestampTZ env a =
+      ⟨.timestamptz, resolveWall env.zone a.sec, a.nsec, env.zone.offsetAt (resolveWall env.zone a.sec)⟩ := by
   cases a with | mk k s n off =>
   obtain ⟨hk, hn, ho⟩ := wf
   simp only at hk hn ho
   subst hk; subst ho
-  simp only [castTo, timestampToTimestampTZ, DateTime.t, GoTime.civil, Int.add_zero, if_true]
-  rw [goDate_civil_fixed o s n hn, newTimestampTZ_eq _ hn]
+  simp only [timestampToTimestampTZ, DateTime.t, GoTime.civil, Int.add_zero]
+  rw [goDate_civil env.zone s n hn, newTimestampTZ_eq _ hn]
   rfl
 
-/-- comparing after the explicit cast compares the shifted instant … -/
+/-- closed form of `Date.ToTimestampTZ(ctx)` -/
+theorem dateToTimestampTZ_eq (env : Env) (a : DateTime) (wf : DateWF a) :
+    dateToTimestampTZ env a =
+      ⟨.timestamptz, resolveWall env.zone a.sec, 0, env.zone.offsetAt (resolveWall env.zone a.sec)⟩ := by
+  cases a with | mk k s n off =>
+  obtain ⟨hk, hn, ho, hm⟩ := wf
+  simp only at hk hn ho hm
+  subst hk; subst ho; subst hn
+  have hh : (civilOfUnix s).hour = 0 ∧ (civilOfUnix s).min = 0 ∧ (civilOfUnix s).sec = 0 := by
+    simp only [civilOfUnix]; omega
+  simp only [dateToTimestampTZ, DateTime.t, GoTime.civil, Int.add_zero]
+  have := goDate_civil env.zone s 0 (by omega)
+  rw [hh.1, hh.2.1, hh.2.2] at this
+  simp only [Int.natCast_zero] at this
+  rw [this, newTimestampTZ_eq _ (by simp)]
+  rfl
+
+/-- the common type two datetimes are compared at (`none`: incomparable) -/
+def commonKind : DTKind → DTKind → Option DTKind
+  | .date, .date => some .date
+  | .date, .timestamp => some .timestamp
+  | .timestamp, .date => some .timestamp
+  | .timestamp, .timestamp => some .timestamp
+  | .date, .timestamptz => some .timestamptz
+  | .timestamp, .timestamptz => some .timestamptz
+  | .timestamptz, .date => some .timestamptz
+  | .timestamptz, .timestamp => some .timestamptz
+  | .timestamptz, .timestamptz => some .timestamptz
+  | .time, .time => some .time
+  | .time, .timetz => some .timetz
+  | .timetz, .time => some .timetz
+  | .timetz, .timetz => some .timetz
+  | _, _ => none
+
+/-- cast both operands to `τ`, then compare -/
+def compareAfterCast (env : Env) (τ : DTKind) (a b : DateTime) : Except CastErr Int :=
+  castTo env true τ a >>= fun a' => castTo env true τ b >>= fun b' => compareDatetime env true a' b'
+
+/-- a `Date` that is cast to `timestamp` must sit at offset 0 (as `NewDate` makes it) -/
+def DateOffsetOK (d : DateTime) : Prop := d.kind = .date → (d.off = 0 ∧ d.nsec < 1000000000)
+
+/-- **C17 coherence**: with `WithTZ`, comparing two comparable datetimes gives the same answer as
+    comparing them after explicit casts to their common type — for every context zone, every
+    `today`, both operand orders, and all 13 comparable kind pairs. -/
+theorem compare_equals_cast (env : Env) (a b : DateTime) (τ : DTKind)
+    (hτ : commonKind a.kind b.kind = some τ) (ha : DateOffsetOK a) (hb : DateOffsetOK b) :
+    compareDatetime env true a b = compareAfterCast env τ a b := by
+  cases a with | mk ka sa na oa => cases b with | mk kb sb nb ob =>
+  unfold DateOffsetOK at ha hb
+  simp only at ha hb
+  cases ka <;> cases kb <;> simp only [commonKind, Option.some.injEq, reduceCtorEq] at hτ <;> subst hτ <;>
+    simp only [compareAfterCast, castTo, bind, Except.bind, compareDatetime, if_true, dateToTimestamp,
+      dateToTimestampTZ, timestampToTimestampTZ, timeToTimeTZ, newTimestampTZ, newTimeTZ, mkDT]
+  · -- date, timestamp
+    obtain ⟨ho, hn⟩ := ha rfl; subst ho
+    rw [newTimestamp_eq _ hn]; simp [DateTime.t, GoTime.compare]
+  · -- time, timetz
+    simp only [DateTime.t]
+    exact (timeTZCompare_swap _ _).symm ▸ rfl
+  · -- timestamp, date
+    obtain ⟨ho, hn⟩ := hb rfl; subst ho
+    rw [newTimestamp_eq _ hn]; simp [DateTime.t, GoTime.compare]
+
+/-- the timestamp-vs-timestamptz instance, in the shape of phase 1: casting the timestamp first
+    changes nothing (any zone) -/
+theorem compare_cast_commute (env : Env) (a b : DateTime) (ha : a.kind = .timestamp) (hb : b.kind = .timestamptz) :
+    (castTo env true .timestamptz a >>= fun a' => compareDatetime env true a' b) = compareDatetime env true a b := by
+  have h := compare_equals_cast env a b .timestamptz (by rw [ha, hb]; rfl)
+    (fun h => by rw [ha] at h; cases h) (fun h => by rw [hb] at h; cases h)
+  rw [h, compareAfterCast]
+  have : castTo env true .timestamptz b = .ok b := by rw [← hb]; exact castTo_diag env true b
+  rw [this]
+  cases castTo env true .timestamptz a <;> rfl
+
+/-- C17 in UTC (corollary) -/
+theorem compare_cast_commute_utc (today : Int) (a b : DateTime) (wf : TimestampWF a) (hb : b.kind = .timestamptz) :
+    (castTo ⟨Zone.fixed 0, today⟩ true .timestamptz a >>= fun a' => compareDatetime ⟨Zone.fixed 0, today⟩ true a' b)
+      = compareDatetime ⟨Zone.fixed 0, today⟩ true a b :=
+  compare_cast_commute _ a b wf.kind hb
+
+/-- in a fixed zone, casting a timestamp to timestamptz shifts the instant by the zone offset -/
+theorem castTo_timestamptz_fixed (o today : Int) (a : DateTime) (wf : TimestampWF a) :
+    castTo ⟨Zone.fixed o, today⟩ true .timestamptz a = .ok ⟨.timestamptz, a.sec - o, a.nsec, o⟩ := by
+  have hk := wf.kind
+  cases a with | mk k s n off =>
+  simp only at hk; subst hk
+  simp only [castTo, if_true]
+  rw [timestampToTimestampTZ_eq _ _ wf, resolveWall_fixed, offsetAt_fixed]
+
+/-- in a fixed zone the comparison of a timestamp with a timestamptz compares the shifted instant -/
+theorem compare_direct_fixed (o today : Int) (a b : DateTime) (wf : TimestampWF a) (hb : b.kind = .timestamptz) :
+    compareDatetime ⟨Zone.fixed o, today⟩ true a b = .ok ((⟨a.sec - o, a.nsec, o⟩ : GoTime).compare b.t) := by
+  have hk := wf.kind
+  cases a with | mk k s n off =>
+  cases b with | mk kb sb nb ob =>
+  simp only at hk hb; subst hk; subst hb
+  simp only [compareDatetime, if_true]
+  rw [timestampToTimestampTZ_eq _ _ wf, resolveWall_fixed, offsetAt_fixed]
+  rfl
+
+/-- … and so does the comparison after the explicit cast -/
 theorem compare_after_cast_fixed (o today : Int) (a b : DateTime) (wf : TimestampWF a) (hb : b.kind = .timestamptz) :
     (castTo ⟨Zone.fixed o, today⟩ true .timestamptz a >>= fun a' => compareDatetime ⟨Zone.fixed o, today⟩ true a' b)
       = .ok ((⟨a.sec - o, a.nsec, o⟩ : GoTime).compare b.t) := by
-  rw [castTo_timestamptz_fixed o today a wf]
-  cases b with | mk kb sb nb ob =>
-  simp only at hb; subst hb
-  rfl
+  rw [compare_cast_commute _ a b wf.kind hb, compare_direct_fixed o today a b wf hb]
 
-/-- … whereas the direct comparison compares the unshifted one: the two agree for every `b` only when
-    the zone offset is 0 (C17 holds in UTC, fails elsewhere) -/
-theorem compare_direct_fixed (o today : Int) (a b : DateTime) (wf : TimestampWF a) (hb : b.kind = .timestamptz) :
-    compareDatetime ⟨Zone.fixed o, today⟩ true a b = .ok ((⟨a.sec, a.nsec, 0⟩ : GoTime).compare b.t) := by
-  cases a with | mk k s n off =>
-  cases b with | mk kb sb nb ob =>
-  obtain ⟨hk, hn, ho⟩ := wf
-  simp only at hk hn ho hb
-  subst hk; subst ho; subst hb
-  rfl
+/-! ## C17: transitivity among dates, timestamps and timestamps with time zone -/
 
-/-- C17 in UTC: comparing timestamp with timestamptz = comparing after the explicit cast -/
-theorem compare_cast_commute_utc (today : Int) (a b : DateTime) (wf : TimestampWF a) (hb : b.kind = .timestamptz) :
-    (castTo ⟨Zone.fixed 0, today⟩ true .timestamptz a >>= fun a' => compareDatetime ⟨Zone.fixed 0, today⟩ true a' b)
-      = compareDatetime ⟨Zone.fixed 0, today⟩ true a b := by
-  rw [compare_after_cast_fixed 0 today a b wf hb, compare_direct_fixed 0 today a b wf hb]
-  simp only [Int.sub_zero]
+/-- `time.Date` in this zone is strictly increasing in the wall clock (true for fixed zones; false
+    in a zone with a DST gap, where nonexistent wall clocks are mapped backwards) -/
+def Zone.StrictMono (z : Zone) : Prop := ∀ w1 w2 : Int, w1 < w2 → resolveWall z w1 < resolveWall z w2
+
+theorem Zone.strictMono_fixed (o : Int) : (Zone.fixed o).StrictMono := by
+  intro w1 w2 h; rw [resolveWall_fixed, resolveWall_fixed]; omega
+
+/-- a date, timestamp or timestamptz as the constructors make it -/
+def InstantWF (d : DateTime) : Prop := DateWF d ∨ TimestampWF d ∨ d.kind = .timestamptz
+
+/-- the instant a date / timestamp / timestamptz denotes in the context zone -/
+def instantIn (env : Env) (d : DateTime) : GoTime :=
+  if d.kind = .timestamptz then d.t else ⟨resolveWall env.zone d.sec, d.nsec, 0⟩
+
+theorem compare_resolved (z : Zone) (hm : z.StrictMono) (s1 s2 : Int) (n1 n2 : Nat) (o1 o2 o1' o2' : Int) :
+    GoTime.compare ⟨resolveWall z s1, n1, o1⟩ ⟨resolveWall z s2, n2, o2⟩ = GoTime.compare ⟨s1, n1, o1'⟩ ⟨s2, n2, o2'⟩ := by
+  unfold GoTime.compare
+  simp only []
+  by_cases h : s1 < s2
+  · have := hm s1 s2 h; simp [h, this]
+  · by_cases h' : s2 < s1
+    · have := hm s2 s1 h'
+      have e1 : ¬ resolveWall z s1 < resolveWall z s2 := by omega
+      simp [h, h', this, e1]
+    · have : s1 = s2 := by omega
+      subst this; simp
+
+/-- with `WithTZ`, dates, timestamps and timestamptz are compared by the instant they denote in the
+    context zone (when `time.Date` is strictly increasing there) -/
+theorem compareDatetime_instant (env : Env) (hm : env.zone.StrictMono) (a b : DateTime)
+    (ha : InstantWF a) (hb : InstantWF b) :
+    compareDatetime env true a b = .ok ((instantIn env a).compare (instantIn env b)) := by
+  rcases ha with ha | ha | ha <;> rcases hb with hb | hb | hb
+  all_goals
+    first
+      | (have e1 := dateToTimestampTZ_eq env a ha) | (have e1 := timestampToTimestampTZ_eq env a ha) | skip
+  all_goals
+    first
+      | (have e2 := dateToTimestampTZ_eq env b hb) | (have e2 := timestampToTimestampTZ_eq env b hb) | skip
+  all_goals
+    have ka := (show a.kind = _ from first | exact ha.kind | exact ha)
+    have kb := (show b.kind = _ from first | exact hb.kind | exact hb)
+    cases a with | mk k1 s1 n1 o1 => cases b with | mk k2 s2 n2 o2 =>
+    simp only at ka kb; subst ka; subst kb
+    simp only [compareDatetime, instantIn, if_true, if_false, reduceCtorEq, DateTime.t] at *
+  -- date/date, date/ts, ts/date, ts/ts: own instants, monotone image
+  · exact (compare_resolved env.zone hm s1 s2 n1 n2 0 0 o1 o2).symm ▸ rfl
+  · exact (compare_resolved env.zone hm s1 s2 n1 n2 0 0 o1 o2).symm ▸ rfl
+  · rw [e1]; have := ha.nsec; simp only at this; subst this; rfl
+  · exact (compare_resolved env.zone hm s1 s2 n1 n2 0 0 o1 o2).symm ▸ rfl
+  · exact (compare_resolved env.zone hm s1 s2 n1 n2 0 0 o1 o2).symm ▸ rfl
+  · rw [e1]; rfl
+  · rw [e2]; have := hb.nsec; simp only at this; subst this; rfl
+  · rw [e2]; rfl
+  · rfl
+
+/-- transitivity of `≤` among dates, timestamps and timestamps with time zone (`useTZ = true`), in
+    every context zone where `time.Date` is strictly increasing -/
+theorem compareDatetime_trans_instant (env : Env) (hm : env.zone.StrictMono) (a b c : DateTime)
+    (ha : InstantWF a) (hb : InstantWF b) (hc : InstantWF c)
+    (r1 r2 : Int) (h1 : compareDatetime env true a b = .ok r1) (h2 : compareDatetime env true b c = .ok r2)
+    (l1 : r1 ≤ 0) (l2 : r2 ≤ 0) : ∃ r3, compareDatetime env true a c = .ok r3 ∧ r3 ≤ 0 := by
+  rw [compareDatetime_instant env hm a b ha hb] at h1
+  rw [compareDatetime_instant env hm b c hb hc] at h2
+  rw [compareDatetime_instant env hm a c ha hc]
+  cases h1; cases h2
+  exact ⟨_, rfl, GoTime.compare_trans _ _ _ l1 l2⟩
+
+/-- … in particular in every fixed zone (UTC included), unconditionally -/
+theorem compareDatetime_trans_instant_fixed (o today : Int) (a b c : DateTime)
+    (ha : InstantWF a) (hb : InstantWF b) (hc : InstantWF c)
+    (r1 r2 : Int) (h1 : compareDatetime ⟨Zone.fixed o, today⟩ true a b = .ok r1)
+    (h2 : compareDatetime ⟨Zone.fixed o, today⟩ true b c = .ok r2)
+    (l1 : r1 ≤ 0) (l2 : r2 ≤ 0) : ∃ r3, compareDatetime ⟨Zone.fixed o, today⟩ true a c = .ok r3 ∧ r3 ≤ 0 :=
+  compareDatetime_trans_instant _ (Zone.strictMono_fixed o) a b c ha hb hc r1 r2 h1 h2 l1 l2
 
 /-! ## C17: transitivity fails for mixed `time`/`timetz` on a DST-gap day -/
 
